@@ -1,0 +1,59 @@
+//go:build verif
+
+// Contracts for contract-based deductive verification (see /verif/DESIGN.md).
+// Comment-only file: it contributes no code to any build.
+
+package multi
+
+// ---------------------------------------------------------------- C19
+// Monitor invariant of Transport.mu: the selected id is always a member and
+// every member is a usable transport. Assumed when mu is acquired (read or
+// write), proved before every release of the write lock.
+
+//@ define members(m): m.transportMap != nil && forall(k, transport.TransportID, imp(has(m.transportMap, k), m.transportMap[k] != nil))
+//@ define selected(m): has(m.transportMap, m.currentTransportID)
+
+//@ lockinv[C19] Transport.mu: members(self) && selected(self)
+
+//@ func validateConfig
+//@   props C19
+//@   nopanic
+//@   requires c != nil
+//@   requires forall(k, transport.TransportID, imp(has(c.TransportMap, k), c.TransportMap[k] != nil))
+//@   modifies c.Logger
+//@   ensures imp(result == nil, c.TransportMap != nil && has(c.TransportMap, c.InitialTransportID) && c.Logger != nil)
+//@   loop 1 invariant true
+
+//@ func NewTransport
+//@   props C19
+//@   requires forall(k, transport.TransportID, imp(has(c.TransportMap, k), c.TransportMap[k] != nil))
+//@   ensures imp(result1 == nil, result0 != nil && members(result0) && selected(result0))
+//@   ensures imp(result1 == nil, result0.transportMap == c.TransportMap && result0.currentTransportID == c.InitialTransportID && result0.logger != nil)
+
+//@ func (*Transport).transportIDLoop
+//@   props C19
+//@   nopanic
+//@   requires m.logger != nil
+
+//@ func (*Transport).Write
+//@   props C19
+//@   nopanic
+
+//@ func (*Transport).AsUnreliable
+//@   props C19
+//@   nopanic
+
+//@ func (*Transport).NegotiationParams
+//@   props C19
+//@   nopanic
+
+//@ func (*LastUsedPoller).Get
+//@   props C19
+//@   nopanic
+
+//@ func (*RoundRobinPoller).Get
+//@   props C19
+//@   nopanic
+//@   requires 0 <= p.current && (len(p.transportIDs) == 0 || p.current < len(p.transportIDs))
+//@   ensures 0 <= p.current && (len(p.transportIDs) == 0 || p.current < len(p.transportIDs))
+//@   ensures imp(len(p.transportIDs) > 0, exists(i, int, 0 <= i && i < len(p.transportIDs) && result == p.transportIDs[i]))
